@@ -65,8 +65,11 @@ def run_instant(case):
         tot = e["daynumber"] * 86400000 + ms + 2000
         d2 = dt.date(2000, 1, 1) + dt.timedelta(days=tot // 86400000)
         y2, doy2, ms2 = d2.year, (d2 - dt.date(d2.year, 1, 1)).days + 1, tot % 86400000
-    lo = {(0, 0, "sensor_acquisition_date"): (y, doy, ms), (0, 0, "sensor_acquisition_date_microseconds"): ms * 1000 + us,
-          (0, 1, "sensor_acquisition_date"): (y2, doy2, ms2), (0, 1, "sensor_acquisition_date_microseconds"): ms2 * 1000 + us,
+    # every fifth product is stored last-acquired line first (a descending pass written north-up): the LATER stamp on the first line
+    desc = case["seed"] % 5 == 4
+    first, second = ((y2, doy2, ms2), (y, doy, ms)) if desc else ((y, doy, ms), (y2, doy2, ms2))
+    lo = {(0, 0, "sensor_acquisition_date"): first, (0, 0, "sensor_acquisition_date_microseconds"): first[2] * 1000 + us,
+          (0, 1, "sensor_acquisition_date"): second, (0, 1, "sensor_acquisition_date_microseconds"): second[2] * 1000 + us,
           (1, 0, "sensor_acquisition_date"): (y, doy, ms), (1, 0, "sensor_acquisition_date_microseconds"): ms * 1000 + us2,
           (1, 1, "sensor_acquisition_date"): (y, doy, ms), (1, 1, "sensor_acquisition_date_microseconds"): ms * 1000 + us2}
     b = product.build_product(level="1.1", images=(("HH", None, 2, 1), ("VH", None, 2, 1)), seed=case["seed"], ctx=ctx, line_overrides=lo, leader=dict(np=2))
@@ -116,10 +119,10 @@ def run_instant(case):
 
         img = tree["imagery/HH"]
         obs = {
-            "image-line-ms": (ns(img["sensor_acquisition_date"].values[0]), want_ms),
-            "image-line-us": (ns(img["sensor_acquisition_date_microseconds"].values[0]), want_us),
-            "image-line2-us": (ns(img["sensor_acquisition_date_microseconds"].values[1]), want_us + 2000 * 10**6),
-            "image-line2-ms": (ns(img["sensor_acquisition_date"].values[1]), want_ms + 2000 * 10**6),
+            "image-line-ms": (ns(img["sensor_acquisition_date"].values[0]), want_ms + (2000 * 10**6 if desc else 0)),
+            "image-line-us": (ns(img["sensor_acquisition_date_microseconds"].values[0]), want_us + (2000 * 10**6 if desc else 0)),
+            "image-line2-us": (ns(img["sensor_acquisition_date_microseconds"].values[1]), want_us + (0 if desc else 2000 * 10**6)),
+            "image-line2-ms": (ns(img["sensor_acquisition_date"].values[1]), want_ms + (0 if desc else 2000 * 10**6)),
             "image2-line-us": (ns(tree["imagery/VH"]["sensor_acquisition_date_microseconds"].values[0]), want_ms + us2 * 1000),
             "image2-line-ms": (ns(tree["imagery/VH"]["sensor_acquisition_date"].values[1]), want_ms),
             "attitude-time": (ns(tree["metadata/attitude/attitude"]["time"].values[0]), want_ms),
